@@ -106,7 +106,7 @@ proof fn lemma_sext_u64(p: u64, xw: u64, w: u64, m0: u64, m1: u64)
     lemma_pow2_pos(w as nat);
     let d = m0 ^ m1;
     assert(d == m0 - m1 && p & d == 0) by (bit_vector)
-        requires xw < w, w <= 64, 1 <= xw, m1 == ((1u64 << xw) - 1) as u64, (w < 64 ==> m0 == ((1u64 << w) - 1) as u64), (w == 64 ==> m0 == 0xffff_ffff_ffff_ffffu64), p <= m1;
+        requires d == m0 ^ m1, xw < w, w <= 64, 1 <= xw, m1 == ((1u64 << xw) - 1) as u64, (w < 64 ==> m0 == ((1u64 << w) - 1) as u64), (w == 64 ==> m0 == 0xffff_ffff_ffff_ffffu64), p <= m1;
     assert(p | d == p + d && p <= 0xffff_ffff_ffff_ffffu64 - d) by (bit_vector) requires p & d == 0;
 }
 
@@ -126,6 +126,6 @@ proof fn lemma_neg(p: nat, w: nat)
         lemma_mod_self_0(pow2(w) as int);
     } else {
         lemma_small_mod(n, pow2(w));
-        lemma_mod_unique(n as int, -(p as int), 1, pow2(w) as int);
+        lemma_mod_unique(n as int, -(p as int), -1, pow2(w) as int);
     }
 }
